@@ -25,6 +25,7 @@ func init() {
 			{ID: "C08.4", Desc: "revalidation contexts agree on fields", Run: ruleC08_4, MinSites: 2},
 			{ID: "C08.5", Desc: "replace or append; list written back whole", Run: ruleC08_5, MinSites: 2},
 			{ID: "C08.6", Desc: "append-or-replace is decided by the position alone", Run: func(c *Ctx) { ruleReplaceDecision(c, "C08.6") }, MinSites: 1},
+			{ID: "C08.7", Desc: "a validated 200 is storable whatever forced the validation (evaluator ignores request no-cache / max-age)", Run: func(c *Ctx) { ruleEvaluatorRequestDirectives(c, "C08.7") }, MinSites: 1},
 		},
 	})
 }
@@ -311,6 +312,55 @@ func ruleMergeFilter(c *Ctx, rule string) {
 		return
 	}
 	c.Pass(rule, "merge-filter", desc, fmt.Sprintf("%s: %d header writes guarded; Content-Length omitted", c.P.ShortName(m), len(writes)))
+	// each merged field is copied with all of its field lines: the written value is the source header's value list (the
+	// ranged map value, a lookup or Values), never the single string of Header.Get / a Set of one value
+	whole := true
+	why := ""
+	for _, w := range writes {
+		switch x := w.(type) {
+		case *ssa.MapUpdate:
+			okSrc := false
+			c.P.TraceBack(x.Value, TraceOpts{ThroughOps: true, ThroughExtern: true, NoParams: true, NoHeapFields: true}, func(v ssa.Value, _ []int) bool {
+				switch y := v.(type) {
+				case *ssa.Extract:
+					if nx, ok := y.Tuple.(*ssa.Next); ok && y.Index == 2 {
+						if rg, ok := nx.Iter.(*ssa.Range); ok && isHTTPHeader(rg.X.Type()) {
+							okSrc = true
+						}
+					}
+				case *ssa.Lookup:
+					if isHTTPHeader(y.X.Type()) {
+						okSrc = true
+					}
+				case *ssa.Call:
+					if callIsMethod(&y.Call, "net/http", "Header", "Values") {
+						okSrc = true
+					}
+					if callIsMethod(&y.Call, "net/http", "Header", "Get") {
+						whole, why = false, c.P.InstrPos(y)+": the merged value comes from Header.Get (first field line only)"
+					}
+				}
+				return true
+			})
+			if !okSrc {
+				whole, why = false, c.P.InstrPos(w)+": the merged value is not the source field's value list"
+			}
+		default:
+			cc := callOf(w)
+			if cc != nil && callIsMethod(cc, "net/http", "Header", "Set") {
+				whole, why = false, c.P.InstrPos(w)+": Header.Set stores a single value; the other field lines of the 304's field are lost"
+			}
+			if cc != nil && callIsMethod(cc, "net/http", "Header", "Add") && !blockInCycle(w.Block()) {
+				whole, why = false, c.P.InstrPos(w)+": a single Header.Add outside a loop over the values"
+			}
+		}
+	}
+	dw := "the 304 merge copies every field line of a merged field"
+	if whole {
+		c.Pass(rule, "merge-whole-field", dw, c.P.ShortName(m))
+	} else {
+		c.Fail(rule, "merge-whole-field", dw, why+"; a 304 carrying `Cache-Control: public` and `Cache-Control: max-age=300` on two lines freshens the stored response with the first line only")
+	}
 	// the merge target is the stored response, the source the origin's 304
 	for fn := range c.A.Reach {
 		instrsOf(fn, func(in ssa.Instruction) {
